@@ -789,6 +789,8 @@ def arrays_case(case, res):
     do("np.roll(p, -1) + 0", lambda q: np.roll(q, -1) + 0, [xs[1], xs[2], xs[3], xs[0]])
     do("p.fill(Phase)", lambda q: q.fill(Phase(5.0, 0.25)), [new_v] * 4)
     do("p[::-1].copy()", lambda q: q[::-1].copy(), xs[::-1])
+    do("np.put(p, [0, 2], Phase)", lambda q: np.put(q, [0, 2], Phase(2.0 ** 45, 0.3)), [F(2 ** 45) + F(0.3), xs[1], F(2 ** 45) + F(0.3), xs[3]])
+    do("p.put([1], Phase array)", lambda q: q.put([1], Phase(np.array([5.0]), np.array([0.25]))), [xs[0], new_v, xs[2], xs[3]])
     # a value that is not an angle is refused and leaves the phase as it was
     q = fresh()
     res.transitions += 1
